@@ -1,4 +1,4 @@
-#!/usr/bin/env python3
+#!/venv/bin/python
 """Regenerates MANIFEST.json from harness/registry.py (single source of truth)."""
 import json
 import os
